@@ -4,6 +4,11 @@ Tie: X.  Hand model coq/theories/DslOrder/Model.v (DFS post-order with a seen se
 with cancelled_jobs) against the real hailtop.batch.Batch / LocalBackend; pipelines are built through the real DSL
 (depends_on + commands that mention another job's resource file), commands are "executed" by a scripted pass/fail table
 (backend.sp is replaced, no shell).  The model is run on the dependency lists in the iteration order Python really used.
+
+PythonJob pipelines (case['py']): Bash and Python jobs created in one order and wired in another; a resource reaches a PythonJob only
+through the arguments of j.call(f, *args, **kwargs) — positionally, as a keyword value, nested in lists / tuples / dicts (depth 0..3) —
+and results are used raw or via as_str / as_repr / as_json.  The oracle recomputes the expected dependency edges from the operations
+(every resource REACHABLE in the arguments induces an edge to its producer) and applies the same numbering / order / skip-set clauses.
 """
 import itertools
 
@@ -24,18 +29,23 @@ META = dict(
                '(incl. self-dependency) is rejected with nothing run; the local backend skips a job iff it is not always_run and one of '
                'its parents failed or was skipped, and every other job runs and fails iff its command fails. The model is hand-written '
                'and compared with the real Batch.run()/LocalBackend on all digraphs with <= 3 jobs, all DAGs on 4 (thorough: 5) jobs, '
-               'cyclic and larger random pipelines, with explicit and resource-induced edges.',
+               'cyclic and larger random pipelines, with explicit and resource-induced edges, and on PythonJob pipelines (Bash and Python jobs; '
+               'resources passed to j.call(f, *args, **kwargs) positionally, by keyword and nested in lists / tuples / dicts to depth 3 — all nestings x '
+               '7 kinds of resource enumerated, plus random mixed pipelines; results used raw and via as_str / as_repr / as_json).',
     level_note='"Transitively depends on a failed or skipped job" is read as the inductive closure the code implements (a child of an '
                'always_run job that ran successfully is NOT skipped even if a grand-parent failed) — DESIGN §5.D. "DAG-shaped" is '
                'formalised as "admits a ranking", "cyclic" as "a job reaches itself"; that every finite graph is one or the other is '
-               'standard but not proved here. Single run() of a fresh batch with BashJobs; PythonJob argument dependencies, re-running '
-               'a batch with previously submitted jobs, Python\'s recursion limit on very deep chains and the ServiceBackend are not covered. '
+               'standard but not proved here. Single run() of a fresh batch. The theorems take the dependency SETS as given; that the sets the DSL '
+               'records are exactly {depends_on} + {producers of the resources mentioned in Bash commands / reachable in the arguments of '
+               'PythonJob.call} is RUN-CHECKED by the oracle on the real DSL (not proved here; the Coq statement of the PythonJob bookkeeping is '
+               'C18\'s call_ops/reach). PythonJobs are compiled and "run" through the same scripted pass/fail table, their functions never execute. '
+               'Re-running a batch with previously submitted jobs, Python\'s recursion limit on very deep chains and the ServiceBackend are not covered. '
                'Trusted: the model-to-code correspondence run (not a translator), the loader stubs, the fake subprocess module.',
     partial=False,
 )
 TRUSTED = ['correspondence harness/props/C17.py + harness/impl/c17_dsl_order.py (hand model vs real hailtop.batch, fake subprocess module)',
            'loader stubs for third-party packages imported by hailtop.batch (dill, rich, ...)']
-ASSUMPTIONS = ['one Batch.run() of a fresh batch on LocalBackend, BashJobs only; every dependency is a job of the same batch (closed)',
+ASSUMPTIONS = ['one Batch.run() of a fresh batch on LocalBackend (BashJobs and PythonJobs; python functions are never executed); every dependency is a job of the same batch (closed)',
                'commands are atomic pass/fail events given by a table; no shell, docker or file transfer is executed',
                'reading of "transitively": inductive closure over direct parents that failed or were skipped']
 
